@@ -1512,12 +1512,17 @@ func (b *bounds) callbackIndex(site ast.Node, v types.Object, want string) (bool
 	if outer == nil {
 		return false, ""
 	}
-	h, _ := typeutil.Callee(b.info, outer).(*types.Func)
-	if h == nil || !b.prog.IsMoqPkg(h.Pkg()) {
-		return false, ""
+	var d *ast.FuncDecl
+	var hinfo *types.Info
+	hname := ""
+	if h, _ := typeutil.Callee(b.info, outer).(*types.Func); h != nil && b.prog.IsMoqPkg(h.Pkg()) {
+		d, hinfo, hname = b.prog.Decl(h.Origin()), b.prog.Info(h.Pkg()), load.FuncName(h)
+	} else if fid, ok := ast.Unparen(outer.Fun).(*ast.Ident); ok {
+		// a local closure bound once to a literal (add := func(n int, at func(i int) T) { … })
+		if hl := boundFuncLit(b.info, b.fd, fid); hl != nil {
+			d, hinfo, hname = &ast.FuncDecl{Name: ast.NewIdent(fid.Name), Type: hl.Type, Body: hl.Body}, b.info, "the local function "+fid.Name
+		}
 	}
-	d := b.prog.Decl(h.Origin())
-	hinfo := b.prog.Info(h.Pkg())
 	if d == nil || d.Body == nil || d.Type.Params == nil {
 		return false, ""
 	}
@@ -1596,7 +1601,7 @@ func (b *bounds) callbackIndex(site ast.Node, v types.Object, want string) (bool
 	}
 	for _, t := range b.lenAlternatives(outer.Args[countParam]) {
 		if t == want {
-			return true, fmt.Sprintf("the index is the argument %s passes to this function literal: always below its count parameter, which this call sets to %s", load.FuncName(h), want)
+			return true, fmt.Sprintf("the index is the argument %s passes to this function literal: always below its count parameter, which this call sets to %s", hname, want)
 		}
 	}
 	return false, ""
